@@ -152,4 +152,163 @@ Section DensFormula.
       rewrite (zsum_ext _ _ (fun _ => 0)); [apply (zsum_zero RthR)|].
       intros u Hu. apply Fz; auto; lia.
   Qed.
+
+  Let Hfull (a b c : Z) : R := cone_H wtab i j k a b c.
+  Let Ssum : R := zsum3 (nelx g) (nely g) (nz1 g) Hfull.
+
+  Lemma el_range : (0 <= el < nel g)%Z.
+  Proof. apply elem_range; assumption. Qed.
+
+  Lemma dens_Hx_full (x : list R) :
+    dens_Hx g delem wtab x el =
+    zsum3 (nelx g) (nely g) (nz1 g) (fun a b c => Hfull a b c * zget x (elemnumber g a b c)).
+  Proof.
+    unfold dens_Hx. change (@nmul R NumR) with Rmult.
+    rewrite (h_row_sum (fun col v => v * zget x col)) by (intros; ring). reflexivity.
+  Qed.
+
+  Lemma rowsum_full : rowsum g delem wtab el = Ssum.
+  Proof.
+    unfold rowsum.
+    rewrite (map_ext snd (fun cv : Z * R => (fun (_ : Z) (v : R) => v) (fst cv) (snd cv))) by reflexivity.
+    rewrite (h_row_sum (fun _ v => v)) by reflexivity. reflexivity.
+  Qed.
+
+  Lemma Hfull_nonneg a b c : 0 <= Hfull a b c.
+  Proof.
+    unfold Hfull, cone_H. apply (cone_nonneg r wtab Hwt).
+    assert (0 <= sq (i - a))%Z by (unfold sq; apply Z.square_nonneg).
+    assert (0 <= sq (j - b))%Z by (unfold sq; apply Z.square_nonneg).
+    assert (0 <= sq (k - c))%Z by (unfold sq; apply Z.square_nonneg). lia.
+  Qed.
+
+  (* the row sum is positive: the diagonal entry is r > 0 *)
+  Lemma Ssum_pos : 0 < Ssum.
+  Proof.
+    assert (Hc : Hfull i j k = r).
+    { unfold Hfull, cone_H, sq. replace ((i - i) * (i - i) + (j - j) * (j - j) + (k - k) * (k - k))%Z with 0%Z by ring.
+      apply (cone_centre r wtab Hwt Hr0). }
+    pose proof (zsum3R_le (nelx g) (nely g) (nz1 g)
+                  (fun a b c => if (a =? i)%Z && (b =? j)%Z && (c =? k)%Z then Hfull a b c else @nzero R NumR) Hfull) as L.
+    rewrite (zsum3_single num_ring_R (nelx g) (nely g) (nz1 g) i j k Hfull) in L by assumption.
+    fold Ssum in L. rewrite Hc in L. apply Rlt_le_trans with (1 := Hr0). apply L.
+    intros a b c _ _ _. destruct ((a =? i)%Z && (b =? j)%Z && (c =? k)%Z); [apply Rle_refl | apply Hfull_nonneg].
+  Qed.
+
+  (* the response entry of element el, for any nonpadding option *)
+  Lemma dens_response_at kmax nonpad (x : list R) :
+    zget (dens_response g delem wtab kmax nonpad x) el =
+    zsum3 (nelx g) (nely g) (nz1 g) (fun a b c => Hfull a b c * zget x (elemnumber g a b c)) /
+    dens_Hs g delem wtab kmax nonpad el.
+  Proof.
+    pose proof el_range as He. unfold dens_response, zget at 1. cbv zeta.
+    rewrite nth_map_zrange by exact He. change (@ndiv R NumR) with Rdiv.
+    rewrite dens_Hx_full. reflexivity.
+  Qed.
+
+  (* C09 cone formula: y_i = sum_j H_ij x_j / sum_j H_ij with H_ij = max(0, r - dist(i,j)) for ALL pairs *)
+  Theorem dens_cone_formula kmax (x : list R) :
+    zget (dens_response g delem wtab kmax None x) el =
+    zsum3 (nelx g) (nely g) (nz1 g) (fun a b c =>
+        Rmax 0 (r - sqrt (IZR (sq (i - a) + sq (j - b) + sq (k - c)))) * zget x (elemnumber g a b c)) /
+    zsum3 (nelx g) (nely g) (nz1 g) (fun a b c => Rmax 0 (r - sqrt (IZR (sq (i - a) + sq (j - b) + sq (k - c))))).
+  Proof.
+    rewrite dens_response_at. unfold dens_Hs, dens_Hs_of. rewrite rowsum_full. unfold Ssum.
+    assert (E : forall a b c, Hfull a b c = Rmax 0 (r - sqrt (IZR (sq (i - a) + sq (j - b) + sq (k - c))))).
+    { intros a b c. unfold Hfull, cone_H. apply Hwt.
+      assert (0 <= sq (i - a))%Z by (unfold sq; apply Z.square_nonneg).
+      assert (0 <= sq (j - b))%Z by (unfold sq; apply Z.square_nonneg).
+      assert (0 <= sq (k - c))%Z by (unfold sq; apply Z.square_nonneg). lia. }
+    f_equal; apply zsum3_ext; intros a b c _ _ _; rewrite E; reflexivity.
+  Qed.
+
+  (* the same holds for the elements listed in nonpadding *)
+  Theorem dens_nonpadding_member kmax l (x : list R) : zmem el l = true ->
+    zget (dens_response g delem wtab kmax (Some l) x) el = zget (dens_response g delem wtab kmax None x) el.
+  Proof.
+    intros Hm. rewrite !dens_response_at. unfold dens_Hs, dens_Hs_of. rewrite Hm. reflexivity.
+  Qed.
+
+  (* convex combination: bounds and constants (normalisation by the own row sum, i.e. no nonpadding) *)
+  Theorem dens_bounds kmax (x : list R) lo hi :
+    (forall e, (0 <= e < nel g)%Z -> lo <= zget x e <= hi) ->
+    lo <= zget (dens_response g delem wtab kmax None x) el <= hi.
+  Proof.
+    intros Hb. rewrite dens_response_at. unfold dens_Hs, dens_Hs_of. rewrite rowsum_full.
+    pose proof Ssum_pos as HS.
+    pose proof (zsum3R_convex (nelx g) (nely g) (nz1 g) Hfull (fun a b c => zget x (elemnumber g a b c)) lo hi
+                  (fun a b c _ _ _ => Hfull_nonneg a b c)) as Hc.
+    fold Ssum in Hc.
+    assert (Hv : forall a b c, (0 <= a < nelx g)%Z -> (0 <= b < nely g)%Z -> (0 <= c < nz1 g)%Z ->
+                 lo <= zget x (elemnumber g a b c) <= hi).
+    { intros a b c Ha Hb' Hc'. apply Hb. apply elem_range; assumption. }
+    specialize (Hc Hv). cbv beta in Hc.
+    set (N := zsum3 (nelx g) (nely g) (nz1 g) (fun a b c => Hfull a b c * zget x (elemnumber g a b c))) in *.
+    assert (Hinv : 0 < / Ssum) by (apply Rinv_0_lt_compat; exact HS).
+    assert (E : Ssum * / Ssum = 1) by (field; lra).
+    unfold Rdiv. split.
+    - replace lo with (lo * Ssum * / Ssum) by (rewrite Rmult_assoc, E; ring).
+      apply Rmult_le_compat_r; lra.
+    - replace hi with (hi * Ssum * / Ssum) by (rewrite Rmult_assoc, E; ring).
+      apply Rmult_le_compat_r; lra.
+  Qed.
+
+  Theorem dens_constant kmax (x : list R) v :
+    (forall e, (0 <= e < nel g)%Z -> zget x e = v) ->
+    zget (dens_response g delem wtab kmax None x) el = v.
+  Proof.
+    intros Hc.
+    assert (B : v <= zget (dens_response g delem wtab kmax None x) el <= v).
+    { apply dens_bounds. intros e He. rewrite Hc by exact He. lra. }
+    lra.
+  Qed.
 End DensFormula.
+
+(* the blocks written by the loop have exactly the announced lengths: nwind = len(elcomp), so the slice
+   assignments h_rows[indstart:ncum[el]] = ... are shape-consistent and the blocks are contiguous *)
+Lemma zrange2_length lo hi : length (zrange2 lo hi) = Z.to_nat (hi - lo + 1).
+Proof. unfold zrange2. rewrite map_length. apply zrange_length. Qed.
+
+Lemma flat_map_const_length {A B} (f : A -> list B) l m : (forall a, length (f a) = m) ->
+  length (flat_map f l) = (length l * m)%nat.
+Proof.
+  intros E. induction l as [|a l IH]; [reflexivity|]. cbn [flat_map length]. rewrite app_length, E, IH. lia.
+Qed.
+
+Lemma h_row_length {K} (g : grid) delem (wtab : Z -> K) el :
+  0 <= delem -> wf g -> 0 <= el < nel g ->
+  Z.of_nat (length (h_row g delem wtab el)) = nwind g delem el.
+Proof.
+  intros Hde Hwf He.
+  destruct (elem_num_inv g Hwf el He) as (Hi & Hj & Hk & _).
+  pose proof (win_bounds (elem_i g el) delem (nelx g) Hde Hi) as (X1 & X2 & X3 & X4).
+  pose proof (win_bounds (elem_j g el) delem (nely g) Hde Hj) as (Y1 & Y2 & Y3 & Y4).
+  pose proof (win_bounds (elem_k g el) delem (nz1 g) Hde Hk) as (Z1 & Z2 & Z3 & Z4).
+  unfold h_row, nwind.
+  rewrite flat_map_const_length with (m := (Z.to_nat (win_hi (elem_j g el) delem (nely g) - win_lo (elem_j g el) delem + 1) *
+                                           Z.to_nat (win_hi (elem_k g el) delem (nz1 g) - win_lo (elem_k g el) delem + 1))%nat).
+  - rewrite zrange2_length. nia.
+  - intros a. rewrite flat_map_const_length with (m := Z.to_nat (win_hi (elem_k g el) delem (nz1 g) - win_lo (elem_k g el) delem + 1)).
+    + rewrite zrange2_length. reflexivity.
+    + intros b. rewrite map_length. apply zrange2_length.
+Qed.
+
+(* the cone matrix is symmetric (which is why _sensitivity may use H instead of its transpose) *)
+Lemma cone_H_symmetric {K} (wtab : Z -> K) i j k a b c : cone_H wtab i j k a b c = cone_H wtab a b c i j k.
+Proof. unfold cone_H, sq. f_equal. ring. Qed.
+
+(* int(radius) for a non-negative rational radius is its floor *)
+Lemma dens_delem_spec (q : Q) : (0 <= q)%Q ->
+  0 <= dens_delem q /\ (Q2R q < IZR (dens_delem q + 1))%R.
+Proof.
+  intros Hq. unfold dens_delem, qtrunc. destruct q as [a d]. unfold Qle in Hq. cbn in *.
+  assert (Ha : 0 <= a) by lia.
+  rewrite Z.quot_div_nonneg by lia.
+  split; [apply Z.div_pos; lia|].
+  unfold Q2R. cbn [Qnum Qden].
+  assert (Hd : (0 < IZR (Z.pos d))%R) by (apply IZR_lt; lia).
+  apply Rmult_lt_reg_r with (r := IZR (Z.pos d)); [exact Hd|].
+  rewrite Rmult_assoc, Rinv_l, Rmult_1_r by lra.
+  rewrite <- mult_IZR. apply IZR_lt.
+  pose proof (Z.mul_succ_div_gt a (Z.pos d) ltac:(lia)). lia.
+Qed.
